@@ -81,6 +81,19 @@ CHECKS = {
             "trusted: the alternative tables (hand-written per class) and the 'still visibly different after construction' "
             "guard; list-typed parameters whose comparison the library defines as set-based are not asserted order-sensitive",
             "DESIGN.md §4 C12"),
+    "C08": ("exhaustive enumeration of per-attribute full products (orientation interval x value x argument type x state "
+            "class; shape x grid point; velocity; time), all satisfied/violated combinations per constraint subset, all "
+            "ordered goal-state pairs x state core, point-mass heading grid and all trajectories of length <=3, on the real "
+            "GoalRegion/PlanningProblem against an independent evaluation of the statement",
+            "Orientation: 44 intervals (all starts x lengths 0..2pi-1e-3) x 92 query angles (float, numpy, int) x 5 kinematic "
+            "state classes; position: 10 goal shapes (rectangles, rotated, circles, concave polygon, shape group, lanelet "
+            "goals) x 315 half-integer grid points decided by exact rational geometry; conjunction: every subset of "
+            "constraints x every satisfied/violated pattern; disjunction: 12x12 ordered goal-state pairs x 56 states incl. "
+            "point-mass; PM: 16 headings x 3 speeds x 10 goals; goal_reached: all trajectories of <=3 states over a 4-state "
+            "pool x 4 start steps x 4 goals.",
+            "trusted: exact geometry in mc/geom.py and the angle oracle shared with C16; guard band 1e-9 at interval ends "
+            "modulo 2pi and on rotated/circular boundaries",
+            "DESIGN.md §4 C08"),
 }
 
 NOT_YET = {}
